@@ -48,19 +48,19 @@ def _csr_explicit_zeros(x):
 
 def cases(tier, seed):
     out = []
-    nrep = 4 if tier == "quick" else 16
+    nrep = 4 if tier == "quick" else 48
     idx = 0
     for cls in gen.ENTRY_CLASSES:
         for rep in range(nrep):
             out.append({"kind": "defs", "cls": "defs:" + cls, "entry": cls, "idx": idx, "seed": seed,
-                        "maxd": 8 if tier == "quick" else 20})
+                        "maxd": 8 if tier == "quick" else 30})
             idx += 1
     for cls in gen.STRUCT_CLASSES:
-        for rep in range(2 if tier == "quick" else 8):
+        for rep in range(2 if tier == "quick" else 24):
             out.append({"kind": "defs", "cls": "defs:" + cls, "entry": cls, "idx": idx, "seed": seed, "struct": True,
                         "maxd": 6 if tier == "quick" else 14})
             idx += 1
-    for rep in range(24 if tier == "quick" else 160):
+    for rep in range(24 if tier == "quick" else 600):
         out.append({"kind": "ineq", "cls": "ineq", "idx": rep, "seed": seed, "maxd": 6 if tier == "quick" else 12})
     out.append({"kind": "ords", "cls": "ords", "seed": seed})
     return out
